@@ -57,6 +57,52 @@ fn dict_case(inp: &[u64]) -> Result<(), String> {
     Ok(())
 }
 
+
+/// large sequences (the select structures over the high bits leave their smallest span classes only for n in the 10^4..10^6 range);
+/// input: [n, gap_bits, duplicates_per_mille, seed]; values are generated from the seed, checks are sampled
+fn big_case(inp: &[u64]) -> Result<(), String> {
+    let (n, gb, dup, seed) = (inp[0] as usize, inp[1].min(40), inp[2], inp[3]);
+    let mut rng = Rng(seed | 1);
+    let mut vals: Vec<usize> = Vec::with_capacity(n);
+    let mut cur: usize = rng.below(1 << gb.min(20)) as usize;
+    for _ in 0..n {
+        vals.push(cur);
+        if rng.below(1000) >= dup { cur += 1 + (rng.next() >> (64 - gb.max(1))) as usize; if rng.below(50) == 0 { cur += (rng.next() >> (64 - (gb + 6).min(45))) as usize; } }
+    }
+    let u = vals.last().copied().unwrap_or(0) + (rng.below(3) * rng.below(1000)) as usize;
+    let mut b = EliasFanoBuilder::new(n, u);
+    for &v in &vals { b.push(v); }
+    let ef: EfSeqDict = b.build_with_seq_and_dict();
+    if ef.len() != n { return Err(format!("len {} != {}", ef.len(), n)); }
+    let idx: Vec<usize> = if n == 0 { vec![] } else { let mut v: Vec<usize> = (0..200).map(|_| rng.below(n as u64) as usize).collect(); v.extend([0, n - 1, n / 2, (n - 1).min(4095), (n - 1).min(4096), (n - 1).min(8191)]); v };
+    for &i in &idx { if ef.get(i) != vals[i] { return Err(format!("get({}) = {} expected {}", i, ef.get(i), vals[i])); } }
+    for &i in idx.iter().take(20) {
+        let mut it = ef.iter_from(i);
+        if it.len() != n - i { return Err(format!("iter_from({}).len()", i)); }
+        for k in i..(i + 300).min(n) { if it.next() != Some(vals[k]) { return Err(format!("iter_from({}) wrong at {}", i, k)); } }
+    }
+    let mut qs: Vec<usize> = vec![0, u, u + 1, usize::MAX, u / 2];
+    for &i in &idx { qs.push(vals[i]); qs.push(vals[i] + 1); qs.push(vals[i].saturating_sub(1)); }
+    for &q in &qs {
+        let lo = vals.partition_point(|&x| x < q);       // first >= q
+        let hi = vals.partition_point(|&x| x <= q);      // first > q
+        let chk = |name: &str, got: Option<(usize, usize)>, want: Option<usize>| -> Result<(), String> {
+            match (got, want) {
+                (None, None) => Ok(()),
+                (Some((i, v)), Some(w)) => if i < n && vals[i] == v && v == w { Ok(()) } else { Err(format!("{}({}) = ({}, {}) expected value {}", name, q, i, v, w)) },
+                (g, w) => Err(format!("{}({}) = {:?} expected {:?}", name, q, g, w)),
+            }
+        };
+        chk("succ", ef.succ(q), if lo < n { Some(vals[lo]) } else { None })?;
+        chk("succ_strict", ef.succ_strict(q), if hi < n { Some(vals[hi]) } else { None })?;
+        chk("pred", ef.pred(q), if hi == 0 { None } else { Some(vals[hi - 1]) })?;
+        chk("pred_strict", ef.pred_strict(q), if lo == 0 { None } else { Some(vals[lo - 1]) })?;
+        let present = lo < hi;
+        match ef.index_of(q) { None => if present { return Err(format!("index_of({}) = None but present", q)); }, Some(i) => if !(i < n && vals[i] == q) { return Err(format!("index_of({}) = Some({}) does not hold it", q, i)); } }
+    }
+    Ok(())
+}
+
 /// builder rejects bad pushes: input [n, u, seed]
 fn builder_case(inp: &[u64]) -> Result<(), String> {
     let n = inp[0] as usize; let u = inp[1] as usize;
@@ -96,8 +142,14 @@ fn gen(rng: &mut Rng) -> Vec<u64> {
 }
 
 pub fn run(case: &str, ctx: &mut Ctx, one: Option<&str>, rng: &mut Rng, budget: usize) {
-    let f = |c: &str, inp: &[u64]| match c { "ef_seq" => seq_case(inp), "ef_dict" => dict_case(inp), _ => builder_case(inp) };
+    let f = |c: &str, inp: &[u64]| match c { "ef_seq" => seq_case(inp), "ef_dict" => dict_case(inp), "ef_big" => big_case(inp), _ => builder_case(inp) };
     if let Some(s) = one { let inp = parse_list(s); ctx.trial(s, false, || f(case, &inp)); return; }
+    if case == "ef_big" {
+        for n in [0u64, 1, 4096, 4097, 100_000, 600_000] { for gb in [0u64, 1, 3, 8, 13, 20] { for dup in [0u64, 300, 990] {
+            let v = vec![n, gb, dup, 17 + n + gb]; let s = fmt_list(&v); ctx.trial(&s, false, || f(case, &v)); } } }
+        for _ in 0..budget.min(300) { let v = vec![match rng.below(3) { 0 => rng.below(3000), 1 => rng.below(60_000), _ => rng.below(700_000) }, rng.below(22), [0, 0, 100, 900, 999][rng.below(5) as usize], rng.next()]; let s = fmt_list(&v); ctx.trial(&s, false, || f(case, &v)); }
+        return;
+    }
     if case == "ef_builder" {
         for n in [0u64, 1, 2, 5, 64] { for u in [0u64, 1, 10, 1000, 1 << 30] { let v = vec![n, u, n * 31 + u]; let s = fmt_list(&v); ctx.trial(&s, false, || f(case, &v)); } }
         for _ in 0..budget.min(500) { let v = vec![rng.below(80), rng.next() >> rng.below(64), rng.next()]; let s = fmt_list(&v); ctx.trial(&s, false, || f(case, &v)); }
